@@ -104,11 +104,37 @@ func VerifC16Apply() {
 	before := w.exported()
 	w.lc.calls = nil
 	w.db.armed = verifParam("maxFail", 2)
+	if running && verifParam("liveModel", 0) == 1 {
+		// the running nodes were built from the stored configuration
+		w.lc.live, w.lc.lastOK = map[string]string{}, map[string]bool{}
+		for id := range w.procs.List(ctx) {
+			w.lc.live[id] = w.procStored(id)
+		}
+	}
 	diff, aerr := w.svc.ApplyPlanLive(ctx, newCfg, hash, allow)
 	w.db.failAt, w.db.armed = -1, 0
 	calls := w.lc.calls
 
 	mutated := w.exported() != before
+	if w.lc.live != nil {
+		restarted := false
+		for _, c := range calls {
+			if c == "stopandwait" || c == "start" {
+				restarted = true
+			}
+		}
+		if !restarted {
+			// a pipeline that kept running runs, for every processor whose last
+			// swap request succeeded, exactly the stored configuration (applied
+			// or rolled back): store and live nodes agree
+			for id, cfg := range w.lc.live {
+				if ok, asked := w.lc.lastOK[id]; asked && ok {
+					verifAssert(cfg == w.procStored(id), "c13-live-processor-disagrees-with-stored-configuration")
+					verifCover("swapped")
+				}
+			}
+		}
+	}
 	if stale {
 		verifAssert(aerr != nil, "c16-stale-plan-applied")
 		verifAssert(!mutated && len(calls) == 0, "c16-stale-plan-touched-the-pipeline")
